@@ -38,6 +38,7 @@ fn main() {
         "sourceview" => h_misc::sourceview(),
         "function_name" => h_misc::function_name(),
         "ram_bundle" => h_misc::ram_bundle(),
+        "decode_extreme" => h_maps::decode_extreme(),
         "adjust" => h_maps::adjust(false),
         "adjust_dups" => h_maps::adjust(true),
         _ => { eprintln!("unknown harness {name}"); std::process::exit(2); }
